@@ -39,6 +39,6 @@ func (t *tokens_t) ret() {
 	}
 }
 
-func (t tokens_t) count() int64 {
+func (t *tokens_t) count() int64 {
 	return atomic.LoadInt64(&t.clients)
 }
